@@ -34,6 +34,22 @@ LT_POOL = [('z1', 'z1', 0, 'lt'), ('y1', 'y1', 0, 'lt'), ('x2', 'x2', 1, 'lt'), 
 # identifiers that are not strings (numbered systems): 1 is taken twice
 INT_POOL = [('i1', 1, 0), ('i1b', 1, 1), ('i2', 2, 0), ('s', 's', 0)]
 LATE_POOL = [('b', 'b', 0), ('L2', 'L2', 0, 'start2'), ('a', 'a', 0), ('c', 'c', 1), ('M1', 'M1', 1, 'start1')]
+# windows that close (end 1 / end 0) and are opened again by their owner (op 'reopen'): a system that sat out some
+# timesteps comes back in the slot its priority and registration give it
+END_POOL = [('b', 'b', 0), ('E1', 'E1', 0, 'end1'), ('a', 'a', 0), ('c', 'c', 1), ('F0', 'F0', 1, 'end0')]
+# priorities re-assigned while the system is NOT registered (op 'reprio'): the next registration goes by the new value;
+# removal through the system's own clean_up() (op 'cleanup')
+REPRIO_POOL = [('a', 'a', 0), ('b', 'b', 0), ('c', 'c', 1), ('d', 'd', 1)]
+REPRIO = [['a', 2], ['a', 0], ['b', 1], ['b', -1]]
+BIG = 10 ** 6
+
+
+def window(entry):
+    if len(entry) > 3 and entry[3].startswith('start'):
+        return [int(entry[3][5:]), BIG]
+    if len(entry) > 3 and entry[3].startswith('end'):
+        return [0, int(entry[3][3:])]
+    return [0, BIG]
 
 
 def decode_prio(p):
@@ -59,8 +75,8 @@ def make_recorder(log):
     # the log is harness state, not model state: it is reached through the closure, never through a field, so
     # the canonical form of the model does not contain it
     class Rec(Core.System):
-        def __init__(self, key, id, model, priority, start=0):
-            super().__init__(id, model, priority=priority, start=start)
+        def __init__(self, key, id, model, priority, start=0, **kw):
+            super().__init__(id, model, priority=priority, start=start, **kw)
             self.key = key
 
         def execute(self):
@@ -95,15 +111,22 @@ class World:
 
 
 class Harness:
-    def __init__(self, pool, logger_level=None, aliases=False):
+    def __init__(self, pool, logger_level=None, aliases=False, cleanup=False, reprio=()):
         self.pool = [tuple(p) for p in pool]
         self.logger_level = logger_level
         self.aliases = aliases          # use the deprecated camelCase entry points (addSystem / removeSystem / executeSystems)
-        self.config = {'pool': [list(p) for p in self.pool], 'logger_level': logger_level, 'aliases': aliases}
+        self.cleanup = cleanup
+        self.reprio = [list(r) for r in reprio]
+        self.config = {'pool': [list(p) for p in self.pool], 'logger_level': logger_level, 'aliases': aliases,
+                       'cleanup': cleanup, 'reprio': self.reprio}
         self.ids = sorted({p[1] for p in self.pool}, key=repr) + ['zz']
         self._ops = [['add', p[0]] for p in self.pool] + [['remove', i] for i in self.ids] + [['step']]
         # building (never registering) another system object under a pool id, and shallow-copying a pool object
         self._ops += [['construct', p[0]] for p in self.pool[:2]]
+        self._ops += [['reopen', p[0]] for p in self.pool if window(p)[1] < BIG]
+        if cleanup:
+            self._ops += [['cleanup', p[0]] for p in self.pool]
+        self._ops += [['reprio'] + r for r in self.reprio]
         self.cn = Canon(drop={('SystemManager', 'timestep')})
 
     def fresh(self):
@@ -131,12 +154,14 @@ class Harness:
                 o = Rec.Lt(key, sid, w.model, decode_prio(prio))
             elif len(entry) > 3 and entry[3].startswith('start'):
                 o = Rec(key, sid, w.model, decode_prio(prio), start=int(entry[3][5:]))
+            elif len(entry) > 3 and entry[3].startswith('end'):
+                o = Rec(key, sid, w.model, decode_prio(prio), end=int(entry[3][3:]))
             else:
                 o = Rec(key, sid, w.model, decode_prio(prio))
             w.objs[key] = o
             w.prio[key] = int(o.priority)   # the collector's default is read off the real object: "default -1" is
             #                            asserted separately below
-        w.start = {e[0]: (int(e[3][5:]) if len(e) > 3 and e[3].startswith('start') else 0) for e in self.pool}
+        w.win = {e[0]: window(e) for e in self.pool}
         w.t = 0
         w.ref = []          # list of (priority, seq, key)
         w.seq = 0
@@ -198,6 +223,37 @@ class Harness:
                                     expected='SystemNotFoundError', observed='accepted')
                 if self.public(w) != before:
                     raise Violation(f'rejected remove_system({sid!r}) changed the scheduler state')
+        elif kind == 'cleanup':
+            # the system's own way out: the same as remove_system(its id) - exercised when this very object is the
+            # registered one, or when nothing is registered under its id (refused, nothing changes)
+            key = op[1]
+            sid = self_id(self, key)
+            reg = self._registered(w)
+            if reg.get(sid, key) != key:
+                return          # another object holds the id: whom clean_up() retires then is not for C01 to say
+            before = self.public(w) if sid not in reg else None
+            try:
+                w.objs[key].clean_up()
+                raised = None
+            except Core.SystemNotFoundError as e:
+                raised = e
+            if sid in reg:
+                if raised is not None:
+                    raise Violation(f'clean_up() of the registered system {key} raised {raised!r}')
+                w.ref = [r for r in w.ref if r[2] != key]
+            else:
+                # (whether an unregistered system's clean_up() raises or quietly does nothing is not C01's business)
+                if self.public(w) != before:
+                    raise Violation(f'rejected clean_up() of {key} changed the scheduler state')
+        elif kind == 'reprio':
+            key, value = op[1], op[2]
+            if key in self._registered(w).values():
+                return          # priorities are fixed while registered (property quantifier)
+            w.objs[key].priority = value
+            w.prio[key] = value
+        elif kind == 'reopen':
+            w.objs[op[1]].end = BIG
+            w.win[op[1]][1] = BIG
         elif kind == 'construct':
             # a second object with the same id and priority is built and thrown away, and the pool object is copied:
             # neither is registered, so nothing about the schedule changes
@@ -219,7 +275,7 @@ class Harness:
                                 observed=list(w.log2))
             got = tuple(w.log)
             order = [k for _, _, k in sorted(w.ref, key=lambda r: (-r[0], r[1]))]
-            exp = tuple(k for k in order if w.start[k] <= w.t)       # those whose window is open in this timestep
+            exp = tuple(k for k in order if w.win[k][0] <= w.t <= w.win[k][1])   # those whose window is open in this timestep
             w.t += 1
             w.last = got
             if got != exp:
@@ -232,7 +288,7 @@ class Harness:
             clone = copy.deepcopy(w.model)
             del w.log[:]
             clone.execute()
-            exp = tuple(k for k in order if w.start[k] <= w.t)       # the copy runs the NEXT timestep
+            exp = tuple(k for k in order if w.win[k][0] <= w.t <= w.win[k][1])       # the copy runs the NEXT timestep
             if tuple(w.log) != exp:
                 raise Violation('a deep copy of the model runs its systems in another order than (descending priority, '
                                 'registration order of the model it was copied from)', expected=list(exp),
@@ -263,8 +319,10 @@ class Harness:
 
     def refstate(self, w):
         # registration order and scheduling order; sequence numbers only matter relative to each other
+        edges = [v for win in w.win.values() for v in win if v < BIG]
         return (tuple(k for _, _, k in w.ref), tuple(k for _, _, k in sorted(w.ref, key=lambda r: (-r[0], r[1]))),
-                min(w.t, max(w.start.values())))
+                min(w.t, max(edges) + 1), tuple(sorted(w.prio.items())) if self.reprio else (),
+                tuple(sorted((k, v[1]) for k, v in w.win.items())))
 
     def outcome(self, w):
         return w.last
@@ -575,7 +633,8 @@ def run(ctx):
     ctx.leg('clone', histories=nc, note='deepcopy / pickle round trip of the model after every registration history of '
                                         '<= 4 systems; every BFS step also runs a deep copy')
     if ctx.small:
-        hs = Harness([('b', 'b', 0), ('a', 'a', 0), ('c', 'c', 1), ('k', 'k', None), ('a2', 'a', 1)])
+        hs = Harness([('b', 'b', 0), ('a', 'a', 0), ('c', 'c', 1), ('k', 'k', None), ('a2', 'a', 1)], cleanup=True,
+                     reprio=[['b', 2], ['b', 0]])
         r = hbfs.explore(ctx, hs, 'small_pool', max_depth=40, procs=ctx.procs)
         ctx.leg('small_pool', **r)
         return
@@ -593,8 +652,10 @@ def run(ctx):
         ctx.cap('odd_pool: fixpoint not reached')
     if ctx.violations:
         return
-    for name, pool in (('own_ordering', LT_POOL), ('late_start', LATE_POOL), ('numbered_ids', INT_POOL)):
-        hp = Harness(pool)
+    for name, pool, kw in (('own_ordering', LT_POOL, {'cleanup': True}), ('late_start', LATE_POOL, {}),
+                           ('numbered_ids', INT_POOL, {'cleanup': True}), ('closing_windows', END_POOL, {}),
+                           ('reassigned_priorities', REPRIO_POOL, {'cleanup': True, 'reprio': REPRIO})):
+        hp = Harness(pool, **kw)
         r = hbfs.explore(ctx, hp, name, max_depth=40, procs=ctx.procs)
         ctx.leg(name, **r)
         if not r.get('fixpoint'):
@@ -645,5 +706,6 @@ def replay(case):
     if case['leg'] == 'many_systems':
         hbfs._guard(many_systems_case, case)
         return
-    h = Harness(case['config']['pool'], case['config'].get('logger_level'), case['config'].get('aliases', False))
+    cf = case['config']
+    h = Harness(cf['pool'], cf.get('logger_level'), cf.get('aliases', False), cf.get('cleanup', False), cf.get('reprio', ()))
     hbfs.replay_case(h, case)
